@@ -157,7 +157,7 @@ func ParseWALFile(data []byte) ([]WALRecord, error) {
 
 	for offset := 0; offset+WALPageSize <= len(data); offset += WALPageSize {
 		pageData := data[offset : offset+WALPageSize]
-		pageRecords, err := parseWALPage(pageData, uint64(offset), pageNum)
+		pageRecords, err := parseWALPage(pageData, uint64(offset), pageNum, data[offset+WALPageSize:])
 		if err != nil {
 			continue // Skip invalid pages
 		}
@@ -168,7 +168,9 @@ func ParseWALFile(data []byte) ([]WALRecord, error) {
 	return records, nil
 }
 
-func parseWALPage(data []byte, baseOffset uint64, pageNum int) ([]WALRecord, error) {
+// parseWALPage parses the records that start on one page.  following holds the pages after it: a record
+// cut by the page end is completed from the continuation data they carry.
+func parseWALPage(data []byte, baseOffset uint64, pageNum int, following []byte) ([]WALRecord, error) {
 	if len(data) < ShortHeaderSize {
 		return nil, fmt.Errorf("page too small")
 	}
@@ -201,7 +203,16 @@ func parseWALPage(data []byte, baseOffset uint64, pageNum int) ([]WALRecord, err
 			break
 		}
 
-		rec, consumed := parseXLogRecord(data[pos:], header.PageAddr+uint64(pos), header.Magic)
+		recData := data[pos:]
+		// A record longer than what is left of the page continues after the headers of the following pages
+		// (XLP_FIRST_IS_CONTRECORD, xlp_rem_len): put it together so that its block references can be parsed.
+		if totalLen := int(binary.LittleEndian.Uint32(recData[0:4])); totalLen > len(recData) && totalLen <= WALPageSize*2 {
+			if cont := continuationData(following, totalLen-len(recData)); cont != nil {
+				recData = append(append(make([]byte, 0, totalLen), recData...), cont...)
+			}
+		}
+
+		rec, consumed := parseXLogRecord(recData, header.PageAddr+uint64(pos), header.Magic)
 		if consumed == 0 {
 			break
 		}
@@ -215,6 +226,35 @@ func parseWALPage(data []byte, baseOffset uint64, pageNum int) ([]WALRecord, err
 	}
 
 	return records, nil
+}
+
+// continuationData returns the first need bytes of the record continued on the pages in following: every
+// page must be flagged XLP_FIRST_IS_CONTRECORD with xlp_rem_len equal to what is still missing, and gives the
+// bytes after its header (all of them while more is missing).  nil when the pages do not continue the record.
+func continuationData(following []byte, need int) []byte {
+	var out []byte
+	for need > 0 {
+		if len(following) < WALPageSize {
+			return nil
+		}
+		page := following[:WALPageSize]
+		header := parsePageHeader(page)
+		if !isValidMagic(header.Magic) || header.Info&XLP_FIRST_IS_CONTRECORD == 0 || uint64(header.RemLen) != uint64(need) {
+			return nil
+		}
+		headerSize := ShortHeaderSize
+		if header.Info&XLP_LONG_HEADER != 0 {
+			headerSize = LongHeaderSize
+		}
+		n := WALPageSize - headerSize
+		if n > need {
+			n = need
+		}
+		out = append(out, page[headerSize:headerSize+n]...)
+		need -= n
+		following = following[WALPageSize:]
+	}
+	return out
 }
 
 func parsePageHeader(data []byte) *WALPageHeader {
